@@ -25,7 +25,11 @@ Fixpoint sem_poll_loop (fuel : nat) (w : waker) (l : option nat) (s : sh) : sres
   | O => SFuel l s
   | S fuel =>
       let '(s, ok) := sem_try s in
-      if ok then SReady None (drop_listener_opt E0 l s)      (* *this.listener = None *)
+      if ok then
+        let s := drop_listener_opt E0 l s in                 (* *this.listener = None *)
+        (* permits left: pass the baton on (the notification just held may have absorbed releases) *)
+        let s := if 0 <? getw W0 s then notify E0 1 false s else s in
+        SReady None s
       else match l with
            | None => let '(s, id) := listen E0 s in sem_poll_loop fuel w (Some id) s
            | Some id =>
